@@ -15,7 +15,7 @@ func Ops() []*core.Op {
 	return []*core.Op{
 		{
 			Name:       "c18.simulate",
-			Doc:        "consecutive real disruption.SimulateScheduling calls (candidates from the real disruption.GetCandidates; accepted, rejected, cancelled, deadline-exceeded and mid-Solve timeouts; single candidates, prefixes and subsets as the consolidation methods use them) with a digest of every API object, every field and exported accessor of state.Cluster / StateNode, the provider's instance types / offerings (and slice orders) and the shared Candidate objects before and after every call; 35% of the worlds run with dynamic resource allocation on (IgnoreDRARequests=false, hydrated deviceallocation controller; instance types with ResourceSlice templates incl. partitionable devices with SharedCounters budgets, cluster-wide exclusive / multi-allocatable devices, node-local partitionable devices, pending pods with ResourceClaims, candidate pods holding allocated claims) and then also digest every ResourceSliceTemplate, every field of the deviceallocation controller and the ResourceClaim / ResourceSlice / DeviceClass objects; 15% contain running pods with required anti-affinity whose pod event reached the cluster state before their node's event; 20% run with FeatureGates.CapacityBuffer on and a real virtualpods.Cache (hydrated from CapacityBuffer + PodTemplate / Deployment / ReplicaSet objects or filled through UpdateEntry; templates with preferred affinities listed lightest first, unsatisfiable preferences, ScheduleAnyway spreads, several required terms; half of them with cluster-default spread constraints and a Service) handed to the real NewProvisioner, and digest every cached virtual pod (section virtualpods)",
+			Doc:        "consecutive real disruption.SimulateScheduling calls (candidates from the real disruption.GetCandidates; accepted, rejected, cancelled, deadline-exceeded and mid-Solve timeouts; single candidates, prefixes and subsets as the consolidation methods use them) with a digest of every API object, every field and exported accessor of state.Cluster / StateNode, the provider's instance types / offerings (and slice orders) and the shared Candidate objects before and after every call; 35% of the worlds run with dynamic resource allocation on (IgnoreDRARequests=false, hydrated deviceallocation controller; instance types with ResourceSlice templates incl. partitionable devices with SharedCounters budgets, cluster-wide exclusive / multi-allocatable devices, node-local partitionable devices, pending pods with ResourceClaims, candidate pods holding allocated claims) and then also digest every ResourceSliceTemplate, every field of the deviceallocation controller and the ResourceClaim / ResourceSlice / DeviceClass objects; 15% contain running pods with required anti-affinity whose pod event reached the cluster state before their node's event; 20% run with FeatureGates.CapacityBuffer on and a real virtualpods.Cache (hydrated from CapacityBuffer + PodTemplate / Deployment / ReplicaSet objects or filled through UpdateEntry; templates with preferred affinities listed lightest first, unsatisfiable preferences, ScheduleAnyway spreads, several required terms; half of them with cluster-default spread constraints and a Service) handed to the real NewProvisioner, and digest every cached virtual pod (section virtualpods); 20% run with FeatureGates.NodeOverlay on: NodeOverlays (relative / flat / absolute price changes, capacity additions; selected by instance type, capacity type, zone, arch; weights, conflicts) evaluated by the REAL nodeoverlay controller's Reconcile into a real InstanceTypeStore, and the overlay-decorated provider (overlay.Decorate) in front of the fake provider handed to the real Provisioner, GetCandidates and the consolidation methods; the store is digested too (section overlay); multi-allocatable DRA devices have several consumable capacity dimensions and bound pods hold shares of some dimensions only (sole consumers of a dimension on a candidate while another pod keeps the device allocated)",
 			N:          func(t core.Tier) int { return map[core.Tier]int{core.Quick: 220, core.Thorough: 4000}[t] },
 			Gen:        genSimulate,
 			Impl:       implSimulate,
@@ -39,7 +39,7 @@ func Ops() []*core.Op {
 		},
 		{
 			Name:       "c18.provision",
-			Doc:        "consecutive real Provisioner.Schedule passes (clock steps in between; ok, cancelled, deadline-exceeded and mid-pass timeouts; acknowledged pods, NodePools with healthy registrations, pods the provisioner refuses) with the same world digest before and after every pass, and the nominations / deletion marks / pod bookkeeping read back as values and compared with the Lean model of Results.Record + MarkPodSchedulingDecisions; 30% of the worlds with dynamic resource allocation on (as in c18.simulate), 15% with anti-affinity pods whose node event is still outstanding, 20% with CapacityBuffers and a real virtualpods.Cache (as in c18.simulate; virtual pods are no API objects: the model is given the real pods of the outcome only); in 25% a node disappears (Node deleted, cluster state told) at the first List call of the first pass, i.e. between DeepCopyNodes() and Results.Record, and the pass is compared with this world's snapshot changed the way the same disappearance changes a twin world",
+			Doc:        "consecutive real Provisioner.Schedule passes (clock steps in between; ok, cancelled, deadline-exceeded and mid-pass timeouts; acknowledged pods, NodePools with healthy registrations, pods the provisioner refuses) with the same world digest before and after every pass, and the nominations / deletion marks / pod bookkeeping read back as values and compared with the Lean model of Results.Record + MarkPodSchedulingDecisions; 30% of the worlds with dynamic resource allocation on (as in c18.simulate), 15% with anti-affinity pods whose node event is still outstanding, 20% with CapacityBuffers and a real virtualpods.Cache (as in c18.simulate; 20% with NodeOverlays behind the decorated provider; virtual pods are no API objects: the model is given the real pods of the outcome only); in 25% a node disappears (Node deleted, cluster state told) at the first List call of the first pass, i.e. between DeepCopyNodes() and Results.Record, and the pass is compared with this world's snapshot changed the way the same disappearance changes a twin world",
 			N:          func(t core.Tier) int { return map[core.Tier]int{core.Quick: 200, core.Thorough: 4000}[t] },
 			Gen:        genProvision,
 			Impl:       implProvision,
